@@ -178,6 +178,17 @@ def load_seeded():
     return out
 
 
+def load_known_alarms():
+    """{seeded id or benign name: reason} of the behaviour-preserving changes on which some rule is known to fire (twins_known.txt)"""
+    out = {}
+    kp = os.path.join(VERIF, "twins_known.txt")
+    if os.path.exists(kp):
+        for l in open(kp):
+            if l.strip() and not l.startswith("#"):
+                out[l.split()[0]] = l.split("--", 1)[1].strip() if "--" in l else ""
+    return out
+
+
 def load_benign():
     return [(os.path.basename(p)[:-5], p) for p in sorted(glob.glob(os.path.join(VERIF, "benign", "*.diff")))]
 
@@ -272,7 +283,12 @@ def run(prop, repo, extract, verbose=False, controls_only=False):
             res["variants"].append({"variant": "seeded/" + nm, "kind": "independent-mutant", "status": st, "detail": r.get("detail", ""), "reported": {prop: keys[:8]}})
             if st == "missed":
                 res["failures"].append((f"MISSED-seeded-{nm}", f"independent mutant seeded/{nm} breaks {prop} (demonstrated by its demo.sh) but no rule serving {prop} reported it"))
+        known_alarms = load_known_alarms()
         for (nm, pp) in load_benign():
+            if nm in known_alarms:
+                # a behaviour-preserving change the rules cannot prove equivalent (twins_known.txt says why): recorded, not a failure of the check
+                res["variants"].append({"variant": "benign/" + nm, "kind": "independent-refactoring", "status": "known-alarm", "detail": known_alarms[nm], "reported": {}})
+                continue
             try:
                 r = cached_report("benign", nm, open(pp, "rb").read(), repo, extract, apply_patch(pp))
             except Exception as e:
